@@ -300,13 +300,7 @@ func Tokenize(source string) ([]Token, error) {
 		} else if matches := regexp.MustCompile(`(?s)^\/\*(.*?)\*\/`).FindStringSubmatch(source[i:]); matches != nil {
 			// Multiline comment.
 			token = newToken(matches[1], COMMENT, ogRow, ogColumn)
-			match := matches[0]
-			lines := strings.Split(match, "\n")
-			lastLinesIndex := len(lines) - 1
-			row += lastLinesIndex
-			ogColumn = startIndex
-			i += len(match)
-			ogI = i - len(lines[lastLinesIndex])
+			i += len(matches[0])
 		} else if matches := regexp.MustCompile(`^\/\/(.*)`).FindStringSubmatch(source[i:]); matches != nil {
 			// Single line comment.
 			token = newToken(matches[1], COMMENT, ogRow, ogColumn)
@@ -358,11 +352,12 @@ func Tokenize(source string) ([]Token, error) {
 			}
 		}
 
-		if token.tokenType == NEWLINE {
-			row++
-			column = startIndex
+		// Advance the position by the consumed text (a string or a block comment can span several lines).
+		if consumed := source[ogI:i]; strings.Contains(consumed, "\n") {
+			row += strings.Count(consumed, "\n")
+			column = len(consumed) - strings.LastIndex(consumed, "\n")
 		} else {
-			column = ogColumn + (i - ogI)
+			column = ogColumn + len(consumed)
 		}
 
 		// If still no token has been found, exit with error.
